@@ -63,7 +63,7 @@ fn corr_f64(r: &mut Rng, n: usize, out: &mut Vec<String>) {
     let b = boundary64(M64);
     let ops = [
         "new", "as_int", "add", "sub", "mul", "neg", "double", "mul_small", "exp", "inv", "div", "exp7", "eq",
-        "try_from_u64", "try_from_u128", "try_from_bytes", "square",
+        "try_from_u64", "try_from_u128", "try_from_bytes", "square", "exp_vartime",
     ];
     for i in 0..n {
         let op = ops[i % ops.len()];
@@ -85,6 +85,7 @@ fn corr_f64(r: &mut Rng, n: usize, out: &mut Vec<String>) {
             "double" => format!("f64.double {:x} => {}", a, show(catch(|| f64w(a).double().inner()))),
             "mul_small" => { let s = gen_u64(r, &b) as u32; format!("f64.mul_small {:x} {:x} => {}", a, s, show(catch(|| f64w(a).mul_small(s).inner()))) }
             "exp" => { let p = gen_u64(r, &b); format!("f64.exp {:x} {:x} => {}", a, p, show(catch(|| f64w(a).exp(p).inner()))) }
+            "exp_vartime" => { let p = gen_u64(r, &b); format!("f64.exp_vartime {:x} {:x} => {}", a, p, show(catch(|| f64w(a).exp_vartime(p).inner()))) }
             "inv" => format!("f64.inv {:x} => {}", a, show(catch(|| f64w(a).inv().inner()))),
             "div" => format!("f64.div {:x} {:x} => {}", a, c, show(catch(|| (f64w(a) / f64w(c)).inner()))),
             "exp7" => format!("f64.exp7 {:x} => {}", a, show(catch(|| f64w(a).exp7().inner()))),
@@ -92,6 +93,88 @@ fn corr_f64(r: &mut Rng, n: usize, out: &mut Vec<String>) {
             "try_from_u64" => { let v = gen_u64(r, &b); format!("f64.try_from_u64 {:x} => {}", v, match f64::BaseElement::try_from(v) { Ok(e) => format!("{:x}", e.inner()), Err(_) => "none".into() }) }
             "try_from_u128" => { let v = if r.chance(1, 2) { gen_u64(r, &b) as u128 } else { r.next_u128() >> r.below(70) }; format!("f64.try_from_u128 {:x} => {}", v, match f64::BaseElement::try_from(v) { Ok(e) => format!("{:x}", e.inner()), Err(_) => "none".into() }) }
             "try_from_bytes" => { let v = gen_u64(r, &b); format!("f64.try_from_bytes {} => {}", hex_bytes(&v.to_le_bytes()), match f64::BaseElement::try_from(v.to_le_bytes()) { Ok(e) => format!("{:x}", e.inner()), Err(_) => "none".into() }) }
+            _ => unreachable!(),
+        };
+        out.push(line);
+    }
+}
+
+// ---------------------------------------------------------------- f62 / f128 raw-word interface
+fn f62w(x: u64) -> f62::BaseElement {
+    // BaseElement is a newtype over u64 holding the internal (Montgomery, [0,2M)) word
+    unsafe { core::mem::transmute::<u64, f62::BaseElement>(x) }
+}
+fn f62raw(e: f62::BaseElement) -> u64 {
+    unsafe { core::mem::transmute::<f62::BaseElement, u64>(e) }
+}
+fn f128w(x: u128) -> f128::BaseElement {
+    unsafe { core::mem::transmute::<u128, f128::BaseElement>(x) }
+}
+fn f128raw(e: f128::BaseElement) -> u128 {
+    unsafe { core::mem::transmute::<f128::BaseElement, u128>(e) }
+}
+
+fn corr_f62(r: &mut Rng, n: usize, out: &mut Vec<String>) {
+    let b = boundary64(M62);
+    let ops = ["new", "as_int", "add", "sub", "mul", "neg", "double", "exp", "inv", "div", "eq", "try_from_u64", "try_from_u128"];
+    for i in 0..n {
+        let op = ops[i % ops.len()];
+        let legit = r.chance(3, 4) || op == "inv" || op == "div" || op == "exp";
+        let w = |r: &mut Rng| {
+            let x = gen_u64(r, &b);
+            if legit { x % (2 * M62) } else { x }
+        };
+        let (a, c) = (w(r), w(r));
+        let line = match op {
+            "new" => { let v = gen_u64(r, &b); format!("f62.new {:x} => {}", v, show(catch(|| f62raw(f62::BaseElement::new(v))))) }
+            "as_int" => format!("f62.as_int {:x} => {}", a, show(catch(|| f62w(a).as_int()))),
+            "add" => format!("f62.add {:x} {:x} => {}", a, c, show(catch(|| f62raw(f62w(a) + f62w(c))))),
+            "sub" => format!("f62.sub {:x} {:x} => {}", a, c, show(catch(|| f62raw(f62w(a) - f62w(c))))),
+            "mul" => format!("f62.mul {:x} {:x} => {}", a, c, show(catch(|| f62raw(f62w(a) * f62w(c))))),
+            "neg" => format!("f62.neg {:x} => {}", a, show(catch(|| f62raw(-f62w(a))))),
+            "double" => format!("f62.double {:x} => {}", a, show(catch(|| f62raw(f62w(a).double())))),
+            "exp" => { let p = gen_u64(r, &b); format!("f62.exp {:x} {:x} => {}", a, p, show(catch(|| f62raw(f62w(a).exp(p))))) }
+            "inv" => format!("f62.inv {:x} => {}", a, show(catch(|| f62raw(f62w(a).inv())))),
+            "div" => format!("f62.div {:x} {:x} => {}", a, c, show(catch(|| f62raw(f62w(a) / f62w(c))))),
+            "eq" => { let c2 = match r.below(4) { 0 => a, 1 => a.wrapping_add(M62), _ => c }; format!("f62.eq {:x} {:x} => {}", a, c2, show(catch(|| (f62w(a) == f62w(c2)) as u8))) }
+            "try_from_u64" => { let v = gen_u64(r, &b); format!("f62.try_from_u64 {:x} => {}", v, match f62::BaseElement::try_from(v) { Ok(e) => format!("{:x}", f62raw(e)), Err(_) => "none".into() }) }
+            "try_from_u128" => { let v = if r.chance(1, 2) { gen_u64(r, &b) as u128 } else { r.next_u128() >> r.below(70) }; format!("f62.try_from_u128 {:x} => {}", v, match f62::BaseElement::try_from(v) { Ok(e) => format!("{:x}", f62raw(e)), Err(_) => "none".into() }) }
+            _ => unreachable!(),
+        };
+        out.push(line);
+    }
+}
+
+fn gen_u128(r: &mut Rng) -> u128 {
+    let b: [u128; 22] = [0, 1, 2, M128 - 1, M128 - 2, M128, M128 + 1, (M128 - 1) / 2, (M128 + 1) / 2, u128::MAX, u128::MAX - 1,
+        1 << 64, (1 << 64) - 1, (1 << 64) + 1, 1 << 127, (1 << 127) - 1, 45 << 40, (45 << 40) - 1, u64::MAX as u128 * u64::MAX as u128,
+        0xFFFF_FFFF_FFFF_FFFF_0000_0000_0000_0000, 0x0000_0000_0000_0001_FFFF_FFFF_FFFF_FFFF, M128 - (1 << 64)];
+    match r.below(8) {
+        0..=2 => b[r.below(22) as usize],
+        3 => b[r.below(22) as usize].wrapping_add(r.below(7) as u128).wrapping_sub(3),
+        4 => (r.next_u64() as u128) << 64 | if r.chance(1, 2) { u64::MAX as u128 } else { 0 },
+        5 => M128 - (r.next_u64() as u128),
+        _ => r.next_u128(),
+    }
+}
+
+fn corr_f128(r: &mut Rng, n: usize, out: &mut Vec<String>) {
+    let ops = ["new", "add", "sub", "mul", "neg", "exp", "inv", "div", "try_from_u128", "mul", "mul"];
+    for i in 0..n {
+        let op = ops[i % ops.len()];
+        let legit = r.chance(4, 5) || op == "inv" || op == "div" || op == "exp";
+        let w = |r: &mut Rng| { let x = gen_u128(r); if legit { x % M128 } else { x } };
+        let (a, c) = (w(r), w(r));
+        let line = match op {
+            "new" => { let v = gen_u128(r); format!("f128.new {:x} => {}", v, show(catch(|| f128raw(f128::BaseElement::new(v))))) }
+            "add" => format!("f128.add {:x} {:x} => {}", a, c, show(catch(|| f128raw(f128w(a) + f128w(c))))),
+            "sub" => format!("f128.sub {:x} {:x} => {}", a, c, show(catch(|| f128raw(f128w(a) - f128w(c))))),
+            "mul" => format!("f128.mul {:x} {:x} => {}", a, c, show(catch(|| f128raw(f128w(a) * f128w(c))))),
+            "neg" => format!("f128.neg {:x} => {}", a, show(catch(|| f128raw(-f128w(a))))),
+            "exp" => { let p = gen_u128(r) >> r.below(128); format!("f128.exp {:x} {:x} => {}", a, p, show(catch(|| f128raw(f128w(a).exp(p))))) }
+            "inv" => format!("f128.inv {:x} => {}", a, show(catch(|| f128raw(f128w(a).inv())))),
+            "div" => format!("f128.div {:x} {:x} => {}", a, c, show(catch(|| f128raw(f128w(a) / f128w(c))))),
+            "try_from_u128" => { let v = gen_u128(r); format!("f128.try_from_u128 {:x} => {}", v, match f128::BaseElement::try_from(v) { Ok(e) => format!("{:x}", f128raw(e)), Err(_) => "none".into() }) }
             _ => unreachable!(),
         };
         out.push(line);
@@ -291,6 +374,8 @@ fn main() {
         "corr" => {
             let mut out = Vec::new();
             corr_f64(&mut r, n, &mut out);
+            corr_f62(&mut r, n, &mut out);
+            corr_f128(&mut r, n / 2, &mut out);
             for l in out { println!("{}", l); }
         }
         "falsify" => {
